@@ -89,7 +89,9 @@ def _mk_pytree(kind, R):
             children, keys = flatten(obj)                                 # REAL lambda
             obj2 = unflatten(keys, children)                              # REAL lambda
             _same_attrs(w, "roundtrip", obj, obj2)
-            bad = [k for k, c in zip(keys, children) if not (c is None or isinstance(c, S.SymArr))]
+            names = keys[0] if (isinstance(keys, tuple) and len(keys) == 2 and isinstance(keys[0], tuple)) else keys
+            bad = [k for k, c in zip(names, children) if not (c is None or isinstance(c, S.SymArr))]
+            bad += [f"child #{n}" for n, c in enumerate(children) if n >= len(names) and not (c is None or isinstance(c, S.SymArr))]
             w.check("jit-safe/children-are-arrays", not bad, f"non-array pytree children (traced under jit/vmap/scan): {bad}")
         else:
             import jax
